@@ -12,6 +12,7 @@ import (
 	"errors"
 	"fmt"
 	"sort"
+	"strings"
 	"sync"
 	"time"
 
@@ -381,6 +382,80 @@ func (w *world) clockFamily(r *hx.Run) {
 	timeshim.SetOffset(0)
 	r.Extra["clock_histories"] = n
 	r.Extra["clock_offsets"] = fmt.Sprint(clockOffsets)
+	w.clockBoundaries(r)
+}
+
+// clockBoundaries freezes the clock exactly around the expiry instant and around the edges of the leaf's
+// validity window. "A signature whose expiry time is not after the moment of verification fails": at the expiry
+// instant and one second later it fails, one second earlier it passes. Certificate windows are inclusive; only
+// one second inside / outside is judged.
+func (w *world) clockBoundaries(r *hx.Run) {
+	defer timeshim.Unfreeze()
+	n := 0
+	for f := 0; f < 2; f++ {
+		for sc := 0; sc < 2; sc++ {
+			c := caseT{Scheme: sc, Expiry: 1, Format: f} // expires in 1 d, leaf and CA valid now
+			caType := []string{"ca", "signingAuthority"}[sc]
+			ch := w.chain(c.LeafW, c.CAW)
+			ts := mocks.NewTrustStore().Put(caType, "s", ch.Root().Cert)
+			sv := trustpolicy.SignatureVerification{VerificationLevel: "strict", Override: map[trustpolicy.ValidationType]trustpolicy.ValidationAction{
+				trustpolicy.TypeAuthenticTimestamp: trustpolicy.ActionLog, trustpolicy.TypeExpiry: trustpolicy.ActionLog, trustpolicy.TypeRevocation: trustpolicy.ActionSkip}}
+			v, err := verifier.NewVerifierWithOptions(ts, verifier.VerifierOptions{OCITrustPolicy: vt.OCIDoc(sv, []string{caType + ":s"}, []string{"*"}), RevocationCodeSigningValidator: mocks.AllOK(), RevocationTimestampingValidator: mocks.AllOK()})
+			if err != nil {
+				r.Infra("verifier: %v", err)
+				return
+			}
+			env := w.envelope(c)
+			expiry := w.now.Add(expiries[c.Expiry].Off)
+			leaf := ch.Leaf().Cert
+			type probe struct {
+				name             string
+				at               time.Time
+				expFails, judgeE bool
+				tsPasses, judgeT bool
+			}
+			var probes []probe
+			for _, d := range []time.Duration{-time.Second, 0, time.Second} {
+				probes = append(probes, probe{"expiry" + signed(d), expiry.Add(d), d >= 0, true, true, sc == 0})
+			}
+			if sc == 0 { // notary.x509 without tsa store: the chain must be valid at the verification instant
+				for _, d := range []time.Duration{-time.Second, time.Second} {
+					probes = append(probes, probe{"leaf.NotAfter" + signed(d), leaf.NotAfter.Add(d), true, true, d < 0, true})
+					probes = append(probes, probe{"leaf.NotBefore" + signed(d), leaf.NotBefore.Add(d), false, true, d > 0, true})
+				}
+			}
+			for _, p := range probes {
+				timeshim.Freeze(p.at)
+				n++
+				r.Eval(1)
+				outcome, verr := v.Verify(ctx, w.desc, env, notation.VerifierVerifyOptions{ArtifactReference: "reg.io/r@" + w.desc.Digest.String(), SignatureMediaType: forge.Formats[f]})
+				timeshim.Unfreeze()
+				er, tr := vt.ResultOf(outcome, trustpolicy.TypeExpiry), vt.ResultOf(outcome, trustpolicy.TypeAuthenticTimestamp)
+				cc := clockCase{c, nil}
+				where := fmt.Sprintf("clock frozen at %s (%s) | %s", p.at.Format(time.RFC3339), p.name, c.String())
+				if outcome == nil || verr != nil || len(er) != 1 || len(tr) != 1 {
+					r.Violation("clock/all-log-level-did-not-report-both-results:boundary", fmt.Sprintf("err=%v | %s", verr, where), cc)
+					continue
+				}
+				if got := er[0].Error != nil; p.judgeE && got != p.expFails {
+					r.Violation(fmt.Sprintf("clock/boundary-expiry-fails=%v-want=%v:%s", got, p.expFails, p.name[:strings.IndexAny(p.name, "+-")]), where, cc)
+				}
+				if got := tr[0].Error == nil; p.judgeT && got != p.tsPasses {
+					r.Violation(fmt.Sprintf("clock/boundary-timestamp-passes=%v-want=%v:%s", got, p.tsPasses, p.name[:strings.IndexAny(p.name, "+-")]), fmt.Sprintf("%s: %v", where, tr[0].Error), cc)
+				}
+				r.Outcome("clock-boundary: " + p.name[:strings.IndexAny(p.name, "+-")])
+				r.Nontrivial(fmt.Sprintf("clockb|%d|%d|%s", f, sc, p.name))
+			}
+		}
+	}
+	r.Extra["clock_boundary_verifications"] = n
+}
+
+func signed(d time.Duration) string {
+	if d < 0 {
+		return d.String()
+	}
+	return "+" + d.String()
 }
 
 func (w *world) clockPair(r *hx.Run, c caseT, offs []time.Duration) {
